@@ -124,7 +124,15 @@ pub fn emit(seed: u64, n: usize, lo: i64, hi: i64, max_n: usize) {
     while count < n {
         for op in ops.iter() {
             if count >= n { break; }
-            let (args, name) = gen_args(&mut r, *op, max_n);
+            let (mut args, mut name) = gen_args(&mut r, *op, max_n);
+            // the witness of the known finding `near-collinear-caps` runs first in every revolve batch: the library's chamfer outline
+            // (vertices 0, 2, 3 collinear in exact arithmetic) moved right of the axis, revolved by a quarter turn, so that its
+            // reversed order is triangulated for the end cap
+            if *op == 403 && count < ops.len() {
+                args = vec![90.0, 31.0, 7.0, 22.556320315782546, 5.0, 24.00794225741275, 5.0, 24.00794225741275, 3.548378058369796,
+                            26.104698374152342, 1.4516219416302045, 27.556320315782546, 1.4516219416302045, 27.556320315782546, 0.0, 22.556320315782546, 0.0];
+                name = "known_finding_witness_chamfer_reversed".to_string();
+            }
             clear_trig();
             let a2 = args.clone(); let o = *op;
             let res = catch(move || run(o, &a2));
